@@ -10,7 +10,7 @@ LEVEL = "exploration"
 TECHNIQUE = 'runtime monitoring: exhaustive comparison of the 4096 vocabulary positions with the published layout written as block formulas, codec inverse on every id and random sequences, legacy vocabularies for every mode x size built in ascending/descending/random order, corner-first prefix property for all pairs n<m<=50'
 RULE = ("exhaustive over the finite parts: all 4096 positions of VOCAB_LIST against the published layout written as block formulas "
         "(and the SHA-256 of the list at the pinned commit), VOCAB_TOKEN_TO_INDEX as its inverse, all ids 0..4095 through decode/"
-        "encode, unknown ids {4096, 10^6, -1, -4096, -4097} and unknown tokens must raise TokenError; random token sequences (list "
+        "encode, unknown ids {4096, 4097, 10^6, 2^31-1, -1, -2, -100, -4095, -4096, -4097} as lists, tuples and int64/int32/int16 arrays, and unknown tokens must raise TokenError; random token sequences (list "
         "and space-joined) through encode/decode; the 3 legacy modes x every max_grid_size 1..50, each built in ascending, descending and random order of sizes within one process (duplicate-free token list, inverse "
         "map, row-major order for the rasterized mode, prefix property for the corner-first mode, codec inverse + TokenError); "
         "corner_first_ndindex(n) a permutation of the n^2 cells and a prefix of corner_first_ndindex(m) for all n<m<=50. "
@@ -18,7 +18,7 @@ RULE = ("exhaustive over the finite parts: all 4096 positions of VOCAB_LIST agai
 ASSUMPTIONS = ["the published layout is the one of the pinned commit (block order of constants._VOCAB_FIELDS, README/docs)"]
 EXHAUSTIVE = {"quick": True, "thorough": True}
 NSHARDS = {"quick": 4, "thorough": 8}
-THRESHOLDS = {"quick": {"c14:positions": 4096, "c14:ids": 4096, "c14:unknown-id": 5, "c14:unknown-token": 20,
+THRESHOLDS = {"quick": {"c14:positions": 4096, "c14:ids": 4096, "c14:unknown-id": 10, "c14:unknown-id-forms": 60, "c14:unknown-token": 20,
                         "c14:random-seq": 500, "c14:legacy-vocab": 450, "c14:legacy-vocab:descending": 150, "c14:legacy-vocab:random": 150, "c14:prefix-pairs": 1225, "c14:legacy-unknown": 100,
                         "c14:legacy-codec": 450, "c14:cf-perm": 50}}
 THRESHOLDS["thorough"] = dict(THRESHOLDS["quick"])
@@ -96,17 +96,23 @@ def run(ctx):
         allids = list(range(4096))
         ctx.check(tok.encode(tok.decode(allids)) == allids, "C14/codec-not-inverse-on-all-ids", "", None)
         ctx.check(tok.encode(tok.decode(allids, joined_tokens=True)) == allids, "C14/codec-not-inverse-on-joined", "", None)
-        for bad in (4096, 10**6, -1, -4096, -4097):
+        for bad in (4096, 10**6, -1, -2, -100, -4095, -4096, -4097, 4097, 2**31 - 1):
             ctx.ev(); ctx.tally("c14:unknown-id")
-            for seq in ([bad], [5, bad, 7]):
+            forms = [[bad], [5, bad, 7], (bad,), (5, bad, 7), np.array([bad], dtype=np.int64), np.array([5, bad, 7], dtype=np.int64)]
+            if -2**31 <= bad < 2**31:
+                forms += [np.array([bad], dtype=np.int32), np.array([7, bad], dtype=np.int32)]
+            if -2**15 <= bad < 2**15:
+                forms += [np.array([bad, 3], dtype=np.int16)]
+            for seq in forms:
+                ctx.tally("c14:unknown-id-forms")
                 try:
                     r = MazeTokenizerModular.decode(seq)
                     ctx.violation("C14/modular-decode-accepts-unknown-id/" + ("negative" if bad < 0 else "too-large"),
-                                  f"decode({seq}) returned {r!r} instead of raising TokenError", dict(ids=seq))
+                                  f"decode({seq}) returned {r!r} instead of raising TokenError", dict(ids=seq, form=type(seq).__name__ + (":" + str(seq.dtype) if isinstance(seq, np.ndarray) else "")))
                 except TokenError:
                     pass
                 except Exception as e:  # noqa: BLE001
-                    ctx.violation(f"C14/modular-decode-wrong-exception/{type(e).__name__}", f"decode({seq}): {e}", dict(ids=seq))
+                    ctx.violation(f"C14/modular-decode-wrong-exception/{type(e).__name__}", f"decode({seq!r}): {e}", dict(ids=seq))
         for badtok in ["<NOPE>", "(50,0)", "(0,50)", "+256", "128", "-257", "", "north", "( 0,0)", "<RESERVE_707>", "<RESERVE_1596>",
                        "TARGET_", "<adjlist_start>", "STEP ", "(-1,0)", "(00,1)", "XX", "<X>", "THEN2", "||="]:
             ctx.ev(); ctx.tally("c14:unknown-token")
@@ -132,8 +138,10 @@ def run(ctx):
             ctx.check(tok.encode(toks) == ids, "C14/encode-wrong", f"{toks[:10]}", dict(ids=ids))
             ctx.check(tok.encode(" ".join(toks)) == ids, "C14/encode-joined-wrong", f"{toks[:10]}", dict(ids=ids))
             ctx.check(tok.decode(ids, joined_tokens=True) == " ".join(toks), "C14/decode-joined-wrong", "", dict(ids=ids))
-            arr = np.array(ids, dtype=np.int64)
-            ctx.check(tok.decode(arr) == toks, "C14/decode-ndarray-wrong", "", dict(ids=ids))
+            for dt in (np.int64, np.int32, np.int16, np.uint16):
+                arr = np.array(ids, dtype=dt)
+                ctx.check(tok.decode(arr) == toks, "C14/decode-ndarray-wrong", f"dtype {np.dtype(dt)}", dict(ids=ids))
+            ctx.check(tok.decode(tuple(ids)) == toks, "C14/decode-tuple-wrong", "", dict(ids=ids))
         if j < 2:
             ctx.sample(dict(kind="random-seq", ids=ids[:8], tokens=toks[:8]))
     # legacy vocabularies: every (mode, size) is built three times in this process - in ascending, descending and a random
